@@ -19,8 +19,8 @@ use std::collections::{BTreeMap, BTreeSet};
 use std::sync::Arc;
 use std::time::Duration;
 
-pub const KINDS: [&str; 20] = [
-    "CreateTopic", "CreateSub", "CreateSubPush", "Publish1", "Publish3", "PullRI", "PullBlockEmpty", "PullBlockReady", "Ack", "Nack", "Modify30",
+pub const KINDS: [&str; 21] = [
+    "PublishBig", "CreateTopic", "CreateSub", "CreateSubPush", "Publish1", "Publish3", "PullRI", "PullBlockEmpty", "PullBlockReady", "Ack", "Nack", "Modify30",
     "DeleteSub", "DeleteTopic", "GetTopic", "GetSub", "ListTopics", "ListSubs", "ListTopicSubs", "StreamOpen", "StreamOpenEmpty",
 ];
 const K_MAX: u64 = 14;
@@ -129,7 +129,7 @@ async fn episode(p: &EpParams, case: u64, pass: u64) -> EpReport {
     // Which actors does R address?
     let (r_topic, r_sub): (&str, &str) = match kind {
         "CreateTopic" | "ListTopics" | "ListSubs" => (&t1, &s1),
-        "CreateSub" | "CreateSubPush" | "Publish3" | "DeleteTopic" | "GetTopic" | "ListTopicSubs" => (&t1, &s2),
+        "CreateSub" | "CreateSubPush" | "Publish3" | "PublishBig" | "DeleteTopic" | "GetTopic" | "ListTopicSubs" => (&t1, &s2),
         "Publish1" => (&t2, &s4),
         "PullRI" | "PullBlockReady" | "StreamOpen" => (&t1, &s2),
         "PullBlockEmpty" | "StreamOpenEmpty" => (&t2, &s4),
@@ -179,6 +179,12 @@ async fn episode(p: &EpParams, case: u64, pass: u64) -> EpReport {
             "CreateSubPush" => Box::pin(async move { c1.create_sub_full(&s9, &t1, 10, Some("http://127.0.0.1:1/push"), Default::default()).await.ok(); None }),
             "Publish1" => Box::pin(async move { c1.publish(&t2, &two).await.ok(); None }),
             "Publish3" => Box::pin(async move { c1.publish(&t1, &two).await.ok(); None }),
+            "PublishBig" => Box::pin(async move {
+                // a request far larger than any internal batching threshold: still all-or-nothing
+                let big: Vec<Msg> = (0..2500).map(|i| Msg::tagged(&format!("big{}", i))).collect();
+                c1.publish(&t1, &big).await.ok();
+                None
+            }),
             "PullRI" => Box::pin(async move { c1.pull(&s2, 3, true).await.ok(); None }),
             "PullBlockEmpty" => Box::pin(async move { c1.pull(&s4, 3, false).await.ok(); None }),
             "PullBlockReady" => Box::pin(async move { c1.pull(&s2, 3, false).await.ok(); None }),
@@ -298,6 +304,11 @@ async fn episode(p: &EpParams, case: u64, pass: u64) -> EpReport {
         "Publish3" => {
             for s in [&s1, &s2, &s3] {
                 applied.stats.get_mut(s).unwrap().1 += 2;
+            }
+        }
+        "PublishBig" => {
+            for s in [&s1, &s2, &s3] {
+                applied.stats.get_mut(s).unwrap().1 += 2500;
             }
         }
         "PullRI" | "PullBlockReady" => {
